@@ -155,7 +155,9 @@ func (x *Exec) run(fi *FuncInfo) {
 			x.assumeInv(st, fr.recv)
 		}
 	}
-	x.vc.regionEval = func(src string) (out string, err error) {
+	// A known-finding region is a contract expression over the state at the start of the atomic
+	// section in which the obligation arises (for a handler with a single section: its pre-state).
+	x.vc.regionEval = func(src string, sec interface{}) (out string, err error) {
 		defer func() {
 			if r := recover(); r != nil {
 				err = fmt.Errorf("%v", r)
@@ -166,6 +168,9 @@ func (x *Exec) run(fi *FuncInfo) {
 			return "", perr
 		}
 		pre := x.firstSec
+		if ss, ok := sec.(*State); ok && ss != nil {
+			pre = ss
+		}
 		if pre == nil {
 			pre = fr.entry
 		}
